@@ -811,11 +811,11 @@ class vDuration(TimeBase):
                 minutes=int(minutes or 0),
                 seconds=int(seconds or 0)
             )
+            if sign == '-':
+                # the smallest timedelta is -999999999 days: negating can overflow, too
+                value = -value
         except OverflowError as e:
             raise ValueError(f'Invalid iCalendar duration: {ical}') from e
-
-        if sign == '-':
-            value = -value
 
         return value
 
